@@ -33,7 +33,7 @@ m = re.search(r"cp\s+(?:-r\s+)?(\S*demo\S*)\s+(\S+)", howto) or re.search(r"copy
 demo_src = os.path.join(src, os.path.basename(m.group(1).rstrip("/"))) if m else os.path.join(src, "demo_test.go")
 demo_dst = m.group(2).replace(seedroot, copy) if m else None
 runs = re.findall(r"(go (?:test|run)[^\n]*)", howto)
-run_cmd = [r for r in runs if "-run" in r or "go run" in r]
+run_cmd = [r for r in runs if "go test" in r and "-run" in r] or [r for r in runs if "-run" in r or "go run" in r]
 run_cmd = (run_cmd[-1] if run_cmd else runs[-1]).replace(seedroot, copy).strip().rstrip("`").rstrip("\\").strip()
 run_cmd = "cd %s && %s" % (copy, run_cmd)
 if "CGO_ENABLED" in howto and "CGO_ENABLED" not in run_cmd:
